@@ -12,7 +12,10 @@
    produces at the documented level (byte-exact for the small fixed value), must load back equal;
    differential round trip of generated object graphs (shared/recursive references, sizes around
    8 KiB / 64 KiB / 1 MiB, protocols 0-5, every compressor, path / raw file / BytesIO targets,
-   misleading names on dump and on load) compared structurally including aliasing;
+   misleading names on dump and on load) compared structurally including aliasing; every sampled
+   (object, compressor, protocol) additionally goes through every kind of open file object (TemporaryFile,
+   os.fdopen/open(fd), a pipe pair, SpooledTemporaryFile in memory and rolled over, a nameless reader, a file
+   opened by a bytes path -- i.e. .name an int, None, absent, bytes);
 5. evidence.
 """
 import ast
@@ -379,6 +382,32 @@ def gen_roundtrip(rng, n, k, big):
     return cases
 
 
+CARRIERS = ["tempfile", "fdopen", "fd_open", "pipe", "spooled_mem", "spooled_disk", "noname", "bytesname"]
+
+
+def gen_carriers(rng, n, k):
+    """every sampled (object, compressor, protocol) goes through EVERY kind of open file object: TemporaryFile
+    (.name is the fd), os.fdopen / open(fd), a pipe pair written from a thread (not seekable), SpooledTemporaryFile
+    in memory (.name None) and rolled over, an object with read/seek but no name, a file opened by a bytes path"""
+    avail = [e["name"] for e in k["registry"] if e["avail"]]
+    cases = []
+    for _ in range(n):
+        fk = rng.randrange(4)
+        if fk == 0:
+            form = {"t": "int", "v": rng.choice([0, 0, 1, 3, 9])}
+        elif fk == 1:
+            form = {"t": "str", "v": rng.choice(avail)}
+        elif fk == 2:
+            form = {"t": "tuple", "v": [rng.choice(avail), rng.choice([None, 1, 2, 6])]}
+        else:
+            form = {"t": rng.choice(["true", "false"])}
+        base = {"mode": "roundtrip", "seed": rng.randrange(10 ** 9), "size": rng.choice(["small", "small", "8k", "64k"]),
+                "proto": rng.choice([0, 1, 2, 3, 4, 5, None]), "form": form}
+        for car in CARRIERS:
+            cases.append(dict(base, carrier=car))
+    return cases
+
+
 def judge_roundtrip(c, r):
     if "harness_error" in r:
         return "harness error " + r["harness_error"] + " " + r.get("tb", "")
@@ -410,7 +439,7 @@ def search_failing(ctx, k, n=400):
         bad = judge_resolve(c, r, k)
         if bad:
             return bad, c
-    rt = gen_roundtrip(ctx.rng, n, k, big=False)
+    rt = gen_carriers(ctx.rng, 12, k) + gen_roundtrip(ctx.rng, n, k, big=False)
     for c, r in zip(rt, run_parallel(rt)):
         bad = judge_roundtrip(c, r)
         if bad:
@@ -503,12 +532,14 @@ def run(ctx):
                                         {"mode": "detect", "peekable": True, "heads": [{"hex": h.hex()}]}, dres[0]["res"][i]))
     # 4. differential round trip of object graphs
     n_rt = 260 if quick else 3000
-    rt = gen_roundtrip(ctx.rng, n_rt, k, big=True) + lz4_cases()
+    n_car = 30 if quick else 300
+    rt = gen_roundtrip(ctx.rng, n_rt, k, big=True) + gen_carriers(ctx.rng, n_car, k) + lz4_cases()
     rtres = run_parallel(rt)
     kinds = {}
     size_dist, proto_dist, target_dist, codec_dist = {}, {}, {}, {}
     head_exprs, head_idx = [], []
     unpicklable = 0
+    name_types = {}
     for i, (c, r) in enumerate(zip(rt, rtres)):
         if c["mode"] == "resolve":
             bad = judge_resolve(c, r, k)
@@ -526,9 +557,14 @@ def run(ctx):
             kinds[kk] = kinds.get(kk, 0) + v
         size_dist[c["size"]] = size_dist.get(c["size"], 0) + 1
         proto_dist[str(c["proto"])] = proto_dist.get(str(c["proto"]), 0) + 1
-        target_dist[c["target"]["k"]] = target_dist.get(c["target"]["k"], 0) + 1
+        tkind = c.get("carrier") or c["target"]["k"]
+        target_dist[tkind] = target_dist.get(tkind, 0) + 1
+        if c.get("carrier"):
+            name_types[r.get("name_type")] = name_types.get(r.get("name_type"), 0) + 1
         if r.get("kinds", {}).get("shared") or r.get("kinds", {}).get("recursive"):
             nontrivial.add(json.dumps(c, sort_keys=True))
+        if "head" not in r:          # a pipe: the written bytes cannot be looked at again
+            continue
         head_exprs.append("(kind_code (detect %d %s), pickle_startb %s)" % (
             k["max_prefix_len"], zbytes(bytes.fromhex(r["head"])), zbytes(bytes.fromhex(r["plain_head"]))))
         head_idx.append(i)
@@ -538,7 +574,8 @@ def run(ctx):
         for i, v in zip(head_idx, vals):
             kc, ps = parse_coq(v)
             c, r = rt[i], rtres[i]
-            exp = documented(c["form"], {"k": c["target"]["k"], "name": c["target"].get("name", "")}, k)
+            tspec = {"k": "raw"} if c.get("carrier") else {"k": c["target"]["k"], "name": c["target"].get("name", "")}
+            exp = documented(c["form"], tspec, k)
             want = [] if exp[0] == "plain" else [ord(ch) for ch in exp[0]]
             codec_dist[exp[0]] = codec_dist.get(exp[0], 0) + 1
             if kc != want:
@@ -577,6 +614,8 @@ def run(ctx):
         "resolve_domain": {"forms": len(fs), "targets": len(ts), "cases": len(rcases)},
         "resolve_outcomes": outcome,
         "roundtrip_cases": n_rt,
+        "carrier_cases": n_car * len(CARRIERS),
+        "carrier_name_attribute_types": name_types,
         "roundtrip_skipped_not_picklable_by_cpython": unpicklable,
         "roundtrip_object_kinds": kinds,
         "roundtrip_sizes": size_dist, "roundtrip_protocols": proto_dist, "roundtrip_targets": target_dist,
